@@ -22,6 +22,7 @@ RULE = (
     "L2-table boundary, or touches a sub-cluster bitmap that is neither empty nor full."
     ' Overlay backing-file names also placed so that they end exactly with the first cluster; images without data file / backing also re-read through a minimal caller-side file object, or by a second reader opened on the same handle after the first was dropped.'
 )
+RULE += ' Round 10: one case in five meets a single transient OSError from the handle and repeats the request; half of the cases use content flavours (zero-headed, all-zero, all-0xFF units); two readers over one handle; anonymous temp-file handles; raw backing objects whose content is a qcow2 image.'
 ASSUMPTIONS = [
     "zstd-compressed images are out of the generated domain (zstandard is not installable offline; C12 checks refusal)",
     "the refcount structures are minimal (one empty refcount-table cluster): the reader never consults them",
